@@ -114,6 +114,14 @@ macro_rules! with_alg {
 
 type SerRes = Result<Vec<u8>, &'static str>;
 
+fn crc32_alg(alg: &str) -> Option<&'static crc::Algorithm<u32>> {
+    match alg {
+        "CRC_32_ISO_HDLC" => Some(&crc::CRC_32_ISO_HDLC),
+        "CRC_32_BZIP2" => Some(&crc::CRC_32_BZIP2),
+        _ => None,
+    }
+}
+
 fn crc_allocvec(alg: &str, v: &DVal) -> Option<SerRes> {
     use postcard::ser_flavors::crc as c;
     macro_rules! f { (u8) => { c::to_allocvec_u8 }; (u16) => { c::to_allocvec_u16 }; (u32) => { c::to_allocvec_u32 }; (u64) => { c::to_allocvec_u64 }; (u128) => { c::to_allocvec_u128 }; }
@@ -477,6 +485,26 @@ pub fn eval(ctx: &mut Ctx, op: &str, args: &[Sexp]) -> Option<String> {
                     return Some("FAIL to_vec_crc differs from to_allocvec_crc".into());
                 }
             }
+            // the crate-root convenience entry points for 32-bit CRCs must be the same thing
+            if let Some(alg32) = crc32_alg(alg) {
+                let k = crc::Crc::<u32>::new(alg32);
+                let e = |r: postcard::Result<Vec<u8>>| r.map_err(|e| err_name(&e));
+                let mut g = Guarded::new(len);
+                let rs = guard(|| e(postcard::to_slice_crc32(&v, g.buf(), k.digest()).map(|s| s.to_vec())));
+                if rs != Ok(a.clone()) || !g.intact() {
+                    return Some(format!("FAIL to_slice_crc32 {:?} vs to_allocvec_crc {:?}", rs, a));
+                }
+                if guard(|| e(postcard::to_stdvec_crc32(&v, k.digest()))) != Ok(a.clone()) || guard(|| e(postcard::to_allocvec_crc32(&v, k.digest()))) != Ok(a.clone()) {
+                    return Some("FAIL to_stdvec_crc32 / to_allocvec_crc32 differ from the flavour-level entry point".into());
+                }
+                let cap = HCAPS.iter().copied().find(|c| *c >= len).unwrap_or(4096);
+                if len <= 4096 {
+                    let rv = guard(|| with_cap!(cap, N, e(postcard::to_vec_crc32::<_, N>(&v, k.digest()).map(|s| s.to_vec()))));
+                    if rv != Ok(Some(a.clone())) {
+                        return Some(format!("FAIL to_vec_crc32 {:?} vs to_allocvec_crc {:?}", rv, a));
+                    }
+                }
+            }
             // oracle (C10): plain encoding followed by the LE checksum of exactly those bytes
             if let (Ok(f), Ok(p)) = (&a, postcard::to_allocvec(&v)) {
                 let mut want = p.clone();
@@ -507,6 +535,14 @@ pub fn eval(ctx: &mut Ctx, op: &str, args: &[Sexp]) -> Option<String> {
                 (Ok((v, _)), Ok(v2)) if v == v2 => {}
                 (Err(a), Err(b)) if a == b => {}
                 _ => return Some(format!("FAIL from_bytes_crc {:?} vs take_from_bytes_crc {:?}", f, k)),
+            }
+            if let Some(alg32) = crc32_alg(alg) {
+                let c = crc::Crc::<u32>::new(alg32);
+                let k2: Result<DeRes, ()> = guard(|| with_ty(&t, || postcard::take_from_bytes_crc32::<DynVal>(&bytes, c.digest()).map(|(v, r)| (v.0, r.to_vec())).map_err(|e| err_name(&e))));
+                let f2 = guard(|| with_ty(&t, || postcard::from_bytes_crc32::<DynVal>(&bytes, c.digest()).map(|v| v.0).map_err(|e| err_name(&e))));
+                if k2 != Ok(k.clone()) || f2 != Ok(f.clone()) {
+                    return Some(format!("FAIL from_bytes_crc32 / take_from_bytes_crc32 {:?} {:?} differ from the flavour-level entry points {:?}", f2, k2, k));
+                }
             }
             if let Ok((_, rest)) = &k {
                 // oracle (C10 converse): consumed value bytes are followed by their correct checksum
@@ -994,6 +1030,9 @@ pub fn gen_c10(r: &mut Rng, thorough: bool, out: &mut Vec<String>) {
             let nb = alg_nbytes(alg);
             let paylen = f.len() - nb;
             out.push(format!("crcde {} {} {}", alg, t, hex(&f)));
+            for k in [1usize, 2, paylen / 2, paylen.saturating_sub(1), paylen, f.len() - 1] {
+                out.push(format!("crcde {} {} {}", alg, t, hex(&f[..k.min(f.len())]))); // truncation inside a block read
+            }
             // every single-bit flip in the first 4 and the last 40 payload bytes and in the checksum
             for bit in (0..f.len() * 8).filter(|b| b / 8 < 4 || b / 8 + 40 >= paylen) {
                 let mut c = f.clone();
